@@ -96,6 +96,14 @@ func variants(b []byte, r *rand.Rand) []variant {
 			variant{"0X-prefix", "0X" + h},
 			variant{"double-prefix", "0x0x" + h},
 			variant{"trailing-newline", h + "\n"},
+			variant{"upper-case-hex", strings.ToUpper(h)},
+			variant{"0x-upper-case-hex", "0x" + strings.ToUpper(h)},
+			variant{"mixed-case-hex", strings.ToUpper(h[:mid]) + h[mid:]},
+			variant{"plus-sign", "+" + h[1:]},
+			variant{"minus-sign", "-" + h[1:]},
+			variant{"plus-sign-extra", "+" + h},
+			variant{"0x-minus-sign", "0x-" + h[1:]},
+			variant{"underscore", h[:mid] + "_" + h[mid+1:]},
 			variant{"short", h[:len(h)-2]},
 			variant{"long", h + "00"},
 			variant{"0x-only", "0x"},
